@@ -9,6 +9,10 @@
 //	  (through the public callbacks.OnStart .. OnEndWithStreamOutput) by 2-4 simulated
 //	  units; observed: every handler invocation in order and every unit's handler list at
 //	  the end.
+//	stream (stream.go): one stream payload handed to 0-4 handlers and the flow through the
+//	  public OnStartWithStreamInput / OnEndWithStreamOutput, then a script of recv / close
+//	  actions over all readers; observed: what every reader received, whether the source
+//	  was closed.
 //	graph (black box, graph.go): layered graphs (chains, parallel fan-out/fan-in, nested
 //	  graphs) run through the public API in all four paradigms with recording handlers
 //	  supplied globally, in 1-5 WithCallbacks options, designated to nodes and node paths;
@@ -46,7 +50,7 @@ type HSpec struct {
 
 // SOp is one operation of a white-box script.
 type SOp struct {
-	Op     string  `json:"op"`               // raw | append | reuse | on
+	Op     string  `json:"op"`               // raw | append | reuse | on | alias
 	Parent *int    `json:"parent,omitempty"` // append: nil = a context without manager
 	New    int     `json:"new,omitempty"`
 	Inf    int     `json:"inf,omitempty"`
@@ -55,6 +59,8 @@ type SOp struct {
 	Spare  int     `json:"spare,omitempty"` // raw: cap - len
 	Opts   [][]int `json:"opts,omitempty"`  // append: handler lists of the matching options
 	Via    string  `json:"via,omitempty"`   // append: node | graph | direct
+	Lo     int     `json:"lo,omitempty"`    // alias: the new unit is made from s[lo:hi] of the slice the caller passed for Parent
+	Hi     int     `json:"hi,omitempty"`
 	U      int     `json:"u,omitempty"`     // on: unit
 	T      int     `json:"t,omitempty"`     // on: timing code
 }
@@ -94,6 +100,12 @@ type Case struct {
 	Stages   [][]*GNode `json:"stages,omitempty"`
 	InChunks int        `json:"in_chunks,omitempty"`
 	Seed     uint64     `json:"seed,omitempty"`
+	// stream
+	NH   int    `json:"nh,omitempty"`   // number of handlers passed to InitCallbacks
+	Src  int    `json:"src,omitempty"`  // number of chunks of the source
+	Pipe bool   `json:"pipe,omitempty"` // source is a pipe (copy through a parent reader) / an array
+	T    int    `json:"t,omitempty"`    // 3 = OnStartWithStreamInput, 4 = OnEndWithStreamOutput
+	Acts []SAct `json:"acts,omitempty"`
 }
 
 // ---------------------------------------------------------------- recording handlers
@@ -331,7 +343,7 @@ type engine struct{}
 
 func (engine) ID() string { return "C10" }
 func (engine) CoqHeader() string {
-	return "From Eino Require Import Base.Util Base.GoSlice Model.Callbacks Corr.C10.\nLocal Open Scope N_scope.\n"
+	return "From Eino Require Import Base.Util Base.GoSlice Model.Callbacks Model.CallbacksStream Model.CallbacksSched Corr.C10.\nLocal Open Scope N_scope.\n"
 }
 func (engine) CoqCaseType() string { return "ccase" }
 
@@ -340,24 +352,30 @@ func (engine) Decode(raw json.RawMessage) (any, error) {
 	if err := json.Unmarshal(raw, &c); err != nil {
 		return nil, err
 	}
-	if c.Kind != "script" && c.Kind != "graph" {
+	if c.Kind != "script" && c.Kind != "graph" && c.Kind != "stream" {
 		return nil, fmt.Errorf("unknown case kind %q", c.Kind)
 	}
 	return &c, nil
 }
 
 func (engine) Generate(r *lib.Rng, tier string, i int) any {
-	// two of three cases are graphs (they are the slower and the richer ones)
-	if i%3 == 0 {
+	// of six cases: three graphs (the slower and the richer ones), two scripts, one stream payload
+	switch i % 6 {
+	case 0, 3:
 		return genScript(r, tier)
+	case 5:
+		return genStream(r, tier)
 	}
 	return genGraph(r, tier)
 }
 
 func (engine) Run(c any) lib.Result {
 	cs := c.(*Case)
-	if cs.Kind == "script" {
+	switch cs.Kind {
+	case "script":
 		return runScript(cs)
+	case "stream":
+		return runStream(cs)
 	}
 	return runGraph(cs)
 }
